@@ -15,6 +15,9 @@ CLAIMED = {
  "C17": ("Coq proofs (hex/nibble/bit-field arithmetic, induction over option lists with a loop invariant for the UnMarshal state machine) over hand models + differential correspondence run",
          "Theorems in coq/Properties/C17.v: for all PLMNs (3-digit MCC, 2/3-digit MNC), all SST 0..255 with/without every 3-octet SD, all 2^24 AMF identifiers, all IPv4/IPv6/dual-stack addresses, all option lists of any length with contents of 0..255 octets, all DNNs < 256 octets: the independent standard decoder (Spec/Convert3gpp.v, Spec/Suci.v) applied to the library's output returns the input, and the library's own inverse (IPAddressToString, UnMarshal, UnmarshalBinary) returns it too. Models are executed against the real functions on every run (incl. malformed streams: bad hex, short AMF ids, mismatching BIT STRING lengths, truncated PCO).",
          "Coq kernel + vm_compute; hand models tied by differential execution; encodings transcribed from memory of TS 24.501/23.003/38.414/24.008; textual IP forms handled by Go's net package in the harness.", "DESIGN.md §7 C17"),
+ "C12": ("Coq proofs (induction over the optional-IE list with Go slice length/capacity semantics; fuel-sufficiency for termination) over a hand model + differential correspondence incl. malformed streams with a watchdog",
+         "Theorems in coq/Properties/C12.v: for every protected DL NAS TRANSPORT carrying a TS 24.501 PDU SESSION ESTABLISHMENT ACCEPT (any header, ids, QoS rules of any length up to the LV-E limit, any session AMBR, any list of the other optional IEs before the PDU address, anything after) the extractor returns exactly the encoded IPv4 address; for every transfer with an IPv4 GTP tunnel (any IEs with values < 128 octets in front) exactly the encoded TEID and UPF address; on every byte string both walks terminate (never out of fuel). Each run executes the model on the real extractors' results for reference-built inputs (re-encoded by the Coq spec), for transfers built by the library's own aper encoder, and for prefixes/bit flips/splices/random bytes under a 2 s watchdog.",
+         "Coq kernel + vm_compute; hand model tied by differential execution; input capacity = length; message layouts transcribed from memory of TS 24.501/24.007 and derived from X.691 by hand (cross-checked against the library encoder each run).", "DESIGN.md §7 C12"),
 }
 PENDING_REASON = "check not built yet in this round (work in progress; see DESIGN.md §7 for the planned proof)"
 
